@@ -18,6 +18,8 @@ pub fn units(tier: &str, _seed: u64) -> Vec<String> {
         "1/U:CAL:GASNATURAL;1/U:ACS:GASNATURAL;1/X;1/~O:CAL;1/~O:ACS;5/U:CAL:ELECTRICIDAD;5/U:REF:ELECTRICIDAD;5/X;5/~O:CAL;5/~O:REF",
         // heating (positive) and cooling (negative) outputs of one system
         "1/U:CAL:ELECTRICIDAD;1/U:REF:ELECTRICIDAD;1/X;1/O:CAL;1/O:REF",
+        // a system that also declares output for a service it has no consumption for (passive cooling)
+        "1/U:CAL:ELECTRICIDAD;1/U:ACS:ELECTRICIDAD;1/X;1/~O:CAL;1/~O:ACS;1/~O:REF",
         // a subsystem with auxiliaries and declared outputs whose consumption is declared under another id
         "3/X;3/~O:CAL;3/~O:ACS;1/U:CAL:GASNATURAL;1/U:ACS:GASNATURAL;U:ILU:ELECTRICIDAD",
     ];
@@ -148,7 +150,22 @@ pub fn scenario(u: &Unit) -> String {
     };
     spec(false);
     let ep = energy_performance(&comps, &fp, zero, k(1.0), false);
+    // what the program does by default: the factor set reduced to what the building needs
+    let slim = energy_performance(&comps, &fp.clone().strip(&comps), zero, k(1.0), false);
     spec(true);
+    match (&ep, &slim) {
+        (Ok(a), Ok(b)) => match (crate::by_name!(a.balance_cr, "ELECTRICIDAD"), crate::by_name!(b.balance_cr, "ELECTRICIDAD")) {
+            (Some(x), Some(y)) => {
+                for tt in 0..n {
+                    ob(&format!("el.epus(simplified factors)[{}]", tt), x.used.epus_t[tt].ident(y.used.epus_t[tt]));
+                }
+            }
+            (None, None) => {}
+            _ => ob("simplified-factors-keep-the-electricity-balance", f()),
+        },
+        (Ok(_), Err(_)) => ob("simplified-factors-evaluate", f()),
+        _ => {}
+    }
     match ep {
         Ok(ep) => match crate::by_name!(ep.balance_cr, "ELECTRICIDAD") {
             Some(b) => {
